@@ -38,7 +38,7 @@ func Mutate(r *rand.Rand, text string, maxEdits int) string {
 			break
 		}
 		i := r.IntN(len(ps))
-		switch r.IntN(8) {
+		switch r.IntN(9) {
 		case 0: // delete
 			ps = append(ps[:i], ps[i+1:]...)
 		case 1: // insert
@@ -67,6 +67,8 @@ func Mutate(r *rand.Rand, text string, maxEdits int) string {
 		case 6: // replace with token from same text (keeps it plausible)
 			j := r.IntN(len(ps))
 			ps[i].tok = ps[j].tok
+		case 8: // a comment (and nothing else) between two tokens
+			ps[i].pre = []string{"/*c*/", " /* c */", "-- c\n", " # c\n", "/**/"}[r.IntN(5)]
 		case 7: // move a token 1-3 positions to the right
 			j := i + 1 + r.IntN(3)
 			if j < len(ps) {
@@ -269,3 +271,48 @@ func SystematicMoves(text string, f func(mutant string)) {
 		}
 	}
 }
+
+// SystematicDuplicates yields, for every token position and run length 1..8, the text with that run of tokens
+// written twice (a clause repeated once more than any author would).
+func SystematicDuplicates(text string, f func(mutant string)) {
+	lx := reflex.Lex(text)
+	if lx.Status != reflex.Accept {
+		return
+	}
+	n := len(lx.Toks)
+	for i := 0; i < n; i++ {
+		for L := 1; L <= 8 && i+L <= n; L++ {
+			a, b := lx.Toks[i].Pos, lx.Toks[i+L-1].End
+			f(text[:b] + " " + text[a:b] + text[b:])
+		}
+	}
+}
+
+// FuturePhrases are pieces of GoogleSQL / SQL syntax that memefish does not implement today. Inserted into valid
+// sentences they are rejected; if a change makes the parser accept one, the checks exercise the new syntax at once.
+var FuturePhrases = []string{
+	"IS DISTINCT FROM b", "IS NOT DISTINCT FROM b", "NULLS FIRST", "NULLS LAST", "QUALIFY a", "WINDOW w AS (PARTITION BY a)", "OVER ()", "OVER (PARTITION BY a ORDER BY b)",
+	"OVER w", "ROLLUP (a, b)", "GROUPING SETS ((a), (b))", "CUBE (a)", "LIMIT 1", "OFFSET 1", "ESCAPE '!'", "ANY (SELECT 1)", "SOME (1, 2)", "ALL (1)", "WITHIN GROUP (ORDER BY a)",
+	"FOR SYSTEM_TIME AS OF ts", "PIVOT (SUM(a) FOR b IN (1, 2))", "UNPIVOT (a FOR b IN (c, d))", "RECURSIVE", "NATURAL JOIN t2", "LATERAL", "TABLESAMPLE SYSTEM (1 PERCENT)",
+	"ROWS BETWEEN 1 PRECEDING AND CURRENT ROW", "WITH OFFSET AS o", "AS OF SYSTEM TIME x", "COLLATE 'und:ci'", "AT TIME ZONE 'UTC'", "INTERVAL 1 DAY", "IN UNNEST(a)", "NOT NULL",
+	"DEFAULT 1", "IF EXISTS", "IF NOT EXISTS", "OR REPLACE", "CASCADE", "RESTRICT", "|> LIMIT 1", "|> ORDER BY a", "|> AGGREGATE COUNT(*) GROUP BY a", "|> EXTEND a AS b", "|> JOIN t2 USING (a)",
+	"|> SET a = 1", "|> DROP a", "|> RENAME a AS b", "|> AS t", "|> CALL f()", "|> UNION ALL (SELECT 1)", "|> TABLESAMPLE BERNOULLI (1 PERCENT)", "ASSERT_ROWS_MODIFIED 1", "ON CONFLICT DO NOTHING",
+	"RETURNING *", "USING (a)", "FETCH FIRST 1 ROWS ONLY", "EXCLUDE CURRENT ROW", "TREAT AS t", "CONTAINS KEY a", "GRAPH_TABLE (g MATCH (n) RETURN n.x)", "MERGE INTO t", "STORED", "VIRTUAL",
+}
+
+// PhraseInsertions inserts every future phrase before every token of text (and at its end).
+func PhraseInsertions(text string, f func(mutant string)) {
+	lx := reflex.Lex(text)
+	if lx.Status != reflex.Accept {
+		return
+	}
+	for _, ph := range FuturePhrases {
+		for _, t := range lx.Toks {
+			f(text[:t.Pos] + ph + " " + text[t.Pos:])
+		}
+		f(text + " " + ph)
+	}
+}
+
+// HostilePrefixes are written in front of valid inputs (byte order mark, NBSP, zero width space, NUL, shebang ...).
+var HostilePrefixes = []string{"\ufeff", "\u00a0", "\u200b", "\x00", "\ufeff\ufeff", " \ufeff", "\ufeff ", "\ufeff\n", "\u2028", "\u3000", "\x1a", "\xef\xbb", "#!sql\n", "\r", "\v\f", "\xc2\x85", "\ufffe", "\x7f"}
